@@ -109,10 +109,13 @@ func Corpus() *Program {
 		fld("ByKey", 10, KMessage, ref("WithOneof"), mapOf(), nonNull()))
 
 	// two oneof groups whose branches interleave with each other and with plain fields once sorted by name
-	msg("Interleave", []string{"Source", "target"},
+	msg("Interleave", []string{"DataSource", "Source", "target", "my_target"},
 		fld("AFile", 1, KString, oneof("Source")), fld("BGroup", 2, KString, oneof("target")),
 		fld("CInline", 3, KInt64, oneof("Source")), fld("DHost", 4, KMessage, ref("Leaf"), oneof("target")),
-		fld("BPlain", 5, KString), fld("EOther", 6, KBool, oneof("Source")), fld("AaList", 7, KString, list()))
+		fld("BPlain", 5, KString), fld("EOther", 6, KBool, oneof("Source")), fld("AaList", 7, KString, list()),
+		// groups declared before / after a group whose name is a suffix of theirs
+		fld("DsA", 8, KString, oneof("DataSource")), fld("DsB", 9, KMessage, ref("Leaf"), oneof("DataSource")),
+		fld("MtA", 10, KInt64, oneof("my_target")), fld("MtB", 11, KString, oneof("my_target")))
 	msg("EmbV", nil,
 		fld("EvStr", 1, KString), fld("EvNum", 2, KInt64), fld("EvLeaf", 3, KMessage, ref("Leaf")),
 		fld("EvTags", 4, KString, list()))
@@ -143,7 +146,7 @@ func Corpus() *Program {
 		fld("EmbP", 3, KMessage, ref("EmbP"), embed()))
 
 	msg("EmbO", []string{"EvChoice", "ev_second"},
-		fld("EoStr", 1, KString),
+		fld("EoStr", 1, KString), fld("EoHidden", 6, KString), // EoHidden is excluded
 		fld("EvA", 2, KString, oneof("EvChoice")), fld("EvB", 3, KInt32, oneof("EvChoice")),
 		fld("EwA", 4, KString, oneof("ev_second")), fld("EwB", 5, KBool, oneof("ev_second")))
 	msg("EmbO2", []string{"ExChoice"},
@@ -169,9 +172,15 @@ func Corpus() *Program {
 	msg("EmbD", nil,
 		fld("EdStr", 1, KString), fld("EdList", 2, KString, list()), fld("EdLeaf", 3, KMessage, ref("Leaf")),
 		fld("EdMap", 4, KString, mapOf()), fld("EdByKey", 5, KMessage, ref("Leaf"), mapOf()))
+	msg("EmbDb", nil,
+		fld("EdbStr", 1, KString), fld("EdbList", 2, KInt64, list()), fld("EdbMid", 3, KMessage, ref("Mid")), fld("EdbMap", 4, KString, mapOf()))
+	msg("EmbDc", nil,
+		fld("EdcList", 1, KMessage, ref("Leaf"), list()))
 	msg("EmbedDeep", nil,
 		fld("Top", 1, KString),
-		fld("EmbD", 2, KMessage, ref("EmbD"), embed()))
+		fld("EmbD", 2, KMessage, ref("EmbD"), embed()),
+		fld("EmbDb", 3, KMessage, ref("EmbDb"), embed()),
+		fld("EmbDc", 4, KMessage, ref("EmbDc"), embed()))
 
 	msg("NamedLeaf", nil,
 		fld("Shown", 1, KString), fld("Hidden", 2, KString), fld("Skip", 3, KInt32))
@@ -185,7 +194,12 @@ func Corpus() *Program {
 		fld("One", 8, KMessage, ref("NamedLeaf")),
 		fld("Other", 9, KMessage, ref("NamedLeaf"), nonNull()),
 		fld("str_list", 10, KString, list()),
-		fld("Dashed", 11, KInt64, jsonTag("-")), fld("DashedOmit", 12, KString, jsonTag("-,omitempty")), fld("DashLeaf", 13, KMessage, ref("Leaf"), jsonTag("dash-leaf")))
+		fld("Dashed", 11, KInt64, jsonTag("-")), fld("DashedOmit", 12, KString, jsonTag("-,omitempty")), fld("DashLeaf", 13, KMessage, ref("Leaf"), jsonTag("dash-leaf")),
+		// renamed attributes whose default name is the name of a sibling: Kind -> "type", SubKind -> "kind"
+		// (a sibling called like the default name of the *overridden* field would be a duplicate attribute in
+		// every configuration that lacks the override: not a legal program)
+		fld("Kind", 14, KString, jsonTag("type")), fld("SubKind", 15, KString, jsonTag("kind")),
+		fld("KindLeaf", 17, KMessage, ref("Leaf"), jsonTag("sub_leaf")), fld("SubLeaf", 18, KMessage, ref("Mid"), jsonTag("kind_leaf")))
 
 	// attribute names that coincide with names the generated code uses internally (map entry fields,
 	// the placeholder, container members), next to maps and lists of messages
@@ -238,17 +252,21 @@ func Corpus() *Program {
 		DurationCustomType: DurationCastName,
 		TimeType:           SimTimeType,
 		DurationType:       SimDurationType,
-		ExcludeFields: []string{"Naming.Secret", "Naming.SecretList", "NamedLeaf.Hidden", "Naming.Other.Skip", "EmbP.EpHidden", "EmbIn.EiHidden", "Nesting.PtrList.Attrs", "DeepNest.Out.ByKey.LeafMap",
+		ExcludeFields: []string{"Naming.Secret", "Naming.SecretList", "NamedLeaf.Hidden", "Naming.Other.Skip", "EmbP.EpHidden", "EmbIn.EiHidden", "EmbO.EoHidden", "Nesting.PtrList.Attrs", "DeepNest.Out.ByKey.LeafMap",
 			"Oneofs.ChC", "WithOneof.VarI", "Interleave.CInline"}, // branches of oneof groups that keep other branches in the schema,
-		ComputedFields:              []string{"Scalars.FString", "Sink.Count", "Leaf.Num", "Sink.Spec.Name", "Oneofs.ChI", "Oneofs.pick_l", "Mid.ChoiceB", "Empties.PickE",
-			"Interleave.BGroup", "Interleave.DHost", "EmbO.EwA", "EmbO.EwB", "Oneofs.pick_s"}, // incl. every branch of three oneof groups
+		ComputedFields: []string{"Scalars.FString", "Sink.Count", "Leaf.Num", "Sink.Spec.Name", "Oneofs.ChI", "Oneofs.pick_l", "Mid.ChoiceB", "Empties.PickE",
+			"Interleave.BGroup", "Interleave.DHost", "EmbO.EwA", "EmbO.EwB", "Oneofs.pick_s",
+			"Collections.Strs", "Collections.MapStr", "Collections.MapTimeP", "Nesting.PtrList", "Nesting.ValMap", "Sink.Labels", "Sink.Parts", "Mid.Tags", "Mid.LeafMap"}, // incl. every branch of three oneof groups
 		RequiredFields:              []string{"Sink.Name", "Scalars.FInt32", "Oneofs.ChA", "WithOneof.VarS", "Mid.Name", "Nesting.PtrMap.Tags", "Interleave.BGroup", "EmbO.EvB"}, // also on oneof branches and element fields
-		SensitiveFields:             []string{"Sink.Data", "Leaf.Str", "Oneofs.ChJ", "WithOneof.VarM"},
+		SensitiveFields:             []string{"Sink.Data", "Leaf.Str", "Oneofs.ChJ", "WithOneof.VarM", "Collections.Blobs", "Collections.MapInt", "Nesting.ValList"},
 		NameOverrides:               map[string]string{"Naming.Overridden": "renamed", "Leaf.Flag": "flag_x"},
 		UseStateForUnknownByDefault: true,
 		PlanModifiers: map[string][]string{
-			"Sink.Name": {"github.com/hashicorp/terraform-plugin-framework/tfsdk.RequiresReplace()", "github.com/hashicorp/terraform-plugin-framework/tfsdk.UseStateForUnknown()"},
-			"Leaf.Num":  {"github.com/hashicorp/terraform-plugin-framework/tfsdk.UseStateForUnknown()"},
+			"Sink.Name":        {"github.com/hashicorp/terraform-plugin-framework/tfsdk.RequiresReplace()", "github.com/hashicorp/terraform-plugin-framework/tfsdk.UseStateForUnknown()"},
+			"Leaf.Num":         {"github.com/hashicorp/terraform-plugin-framework/tfsdk.UseStateForUnknown()"},
+			"Sink.Names":       {"github.com/hashicorp/terraform-plugin-framework/tfsdk.UseStateForUnknown()"},
+			"Collections.Ints": {"github.com/hashicorp/terraform-plugin-framework/tfsdk.UseStateForUnknown()"},
+			"Sink.Index":       {"github.com/hashicorp/terraform-plugin-framework/tfsdk.UseStateForUnknown()"},
 		},
 		Validators: map[string][]string{
 			"Sink.Name":     {"UseSimValidator()"},
